@@ -27,6 +27,8 @@ pub struct Script {
     /// true: after the operations everything is read back through the API while the fault plan is still armed;
     /// a read that returns Ok must return what is in the file
     pub read_back_armed: bool,
+    /// calls made directly on the package after the operations (sequences the operation model does not express)
+    pub extra: Option<fn(&mut msi::Package<crate::medium::Handle>) -> std::io::Result<()>>,
 }
 
 fn kv() -> Vec<ColDef> {
@@ -44,7 +46,7 @@ pub fn scripts() -> Vec<Script> {
     let base = vec![create("T"), ins("T", rows3.clone())];
     let many: Vec<Vec<V>> = (0..600).map(|i| vec![V::Int(i + 10), V::Str(format!("t0x{} row {}", i + 10, "r".repeat((i % 40) as usize)))]).collect();
     vec![
-        Script { name: "create+insert", setup: Some(vec![]), ops: vec![create("T"), ins("T", rows3.clone())], into_inner: false, arm_before_open: false, read_back_armed: false },
+        Script { name: "create+insert", setup: Some(vec![]), ops: vec![create("T"), ins("T", rows3.clone())], into_inner: false, arm_before_open: false, read_back_armed: false, extra: None },
         Script {
             name: "update+delete",
             setup: Some(base.clone()),
@@ -52,9 +54,10 @@ pub fn scripts() -> Vec<Script> {
             into_inner: true,
             arm_before_open: false,
             read_back_armed: false,
+            extra: None,
         },
-        Script { name: "drop-table", setup: Some(base.clone()), ops: vec![Op::DropTable { name: "T".into() }], into_inner: false, arm_before_open: false, read_back_armed: false },
-        Script { name: "70KB-stream", setup: Some(base.clone()), ops: vec![Op::WriteStream { name: "Big.bin".into(), data: (0..70_000u32).map(|i| (i % 251) as u8).collect() }], into_inner: true, arm_before_open: false, read_back_armed: false },
+        Script { name: "drop-table", setup: Some(base.clone()), ops: vec![Op::DropTable { name: "T".into() }], into_inner: false, arm_before_open: false, read_back_armed: false, extra: None },
+        Script { name: "70KB-stream", setup: Some(base.clone()), ops: vec![Op::WriteStream { name: "Big.bin".into(), data: (0..70_000u32).map(|i| (i % 251) as u8).collect() }], into_inner: true, arm_before_open: false, read_back_armed: false, extra: None },
         Script {
             name: "summary-change",
             setup: Some(base.clone()),
@@ -62,9 +65,10 @@ pub fn scripts() -> Vec<Script> {
             into_inner: false,
             arm_before_open: false,
             read_back_armed: false,
+            extra: None,
         },
-        Script { name: "codepage-change", setup: Some(base.clone()), ops: vec![Op::SetDbCodepage(1252), Op::Summary(SumOp::SetCodepage(1252))], into_inner: true, arm_before_open: false, read_back_armed: false },
-        Script { name: "long-string", setup: Some(base.clone()), ops: vec![ins("T", vec![vec![V::Int(7), V::Str(format!("t0x7{}", "L".repeat(70_000)))]])], into_inner: false, arm_before_open: false, read_back_armed: false },
+        Script { name: "codepage-change", setup: Some(base.clone()), ops: vec![Op::SetDbCodepage(1252), Op::Summary(SumOp::SetCodepage(1252))], into_inner: true, arm_before_open: false, read_back_armed: false, extra: None },
+        Script { name: "long-string", setup: Some(base.clone()), ops: vec![ins("T", vec![vec![V::Int(7), V::Str(format!("t0x7{}", "L".repeat(70_000)))]])], into_inner: false, arm_before_open: false, read_back_armed: false, extra: None },
         Script {
             name: "reopen-then-modify",
             setup: Some(vec![create("T"), ins("T", rows3.clone()), create("U"), ins("U", vec![vec![V::Int(1), V::s("t0x1 one")]])]),
@@ -72,8 +76,9 @@ pub fn scripts() -> Vec<Script> {
             into_inner: true,
             arm_before_open: false,
             read_back_armed: false,
+            extra: None,
         },
-        Script { name: "batch-insert-600", setup: Some(base.clone()), ops: vec![ins("T", many)], into_inner: false, arm_before_open: false, read_back_armed: false },
+        Script { name: "batch-insert-600", setup: Some(base.clone()), ops: vec![ins("T", many)], into_inner: false, arm_before_open: false, read_back_armed: false, extra: None },
         Script {
             name: "two-tables-sharing-strings",
             setup: Some(vec![create("A"), create("B")]),
@@ -81,6 +86,7 @@ pub fn scripts() -> Vec<Script> {
             into_inner: false,
             arm_before_open: false,
             read_back_armed: false,
+            extra: None,
         },
         // a table whose directory entry has two children in the container's name tree is removed
         Script {
@@ -90,6 +96,7 @@ pub fn scripts() -> Vec<Script> {
             into_inner: false,
             arm_before_open: false,
             read_back_armed: false,
+            extra: None,
         },
         Script {
             name: "remove-stream-among-many",
@@ -103,6 +110,7 @@ pub fn scripts() -> Vec<Script> {
             into_inner: true,
             arm_before_open: false,
             read_back_armed: false,
+            extra: None,
         },
         // faults while the file is read in: either open fails, or what was read is what is in the file
         Script {
@@ -118,6 +126,7 @@ pub fn scripts() -> Vec<Script> {
             into_inner: false,
             arm_before_open: true,
             read_back_armed: false,
+            extra: None,
         },
         Script {
             name: "open-under-faults-then-insert",
@@ -126,6 +135,7 @@ pub fn scripts() -> Vec<Script> {
             into_inner: true,
             arm_before_open: true,
             read_back_armed: false,
+            extra: None,
         },
         // a string pool longer than the container's 8 KiB read buffer: a failed refill while the pool is read in
         Script {
@@ -140,6 +150,7 @@ pub fn scripts() -> Vec<Script> {
             into_inner: false,
             arm_before_open: true,
             read_back_armed: false,
+            extra: None,
         },
         // reading under faults: tables longer than the read buffer, a 70 KB stream, the summary
         Script {
@@ -156,6 +167,7 @@ pub fn scripts() -> Vec<Script> {
             into_inner: true,
             arm_before_open: false,
             read_back_armed: true,
+            extra: None,
         },
         Script {
             name: "open-and-read-everything-under-faults",
@@ -169,8 +181,72 @@ pub fn scripts() -> Vec<Script> {
             into_inner: false,
             arm_before_open: true,
             read_back_armed: true,
+            extra: None,
         },
-        Script { name: "package-create", setup: None, ops: vec![create("T"), ins("T", rows3)], into_inner: false, arm_before_open: false, read_back_armed: false },
+        // a table stream longer than the container's 8 KiB buffer is rewritten
+        Script {
+            name: "insert-into-10KB-table",
+            setup: Some(vec![create("T"), ins("T", (0..2600).map(|i| vec![V::Int(i + 1), V::Str(format!("t0x{} s", (i % 50) + 1))]).collect())]),
+            ops: vec![ins("T", vec![vec![V::Int(9000), V::s("t0x9000 new")]])],
+            into_inner: false,
+            arm_before_open: false,
+            read_back_armed: false,
+            extra: None,
+        },
+        Script {
+            name: "update-in-10KB-table",
+            setup: Some(vec![create("T"), ins("T", (0..2600).map(|i| vec![V::Int(i + 1), V::Str(format!("t0x{} s", (i % 50) + 1))]).collect())]),
+            ops: vec![Op::Update { table: "T".into(), sets: vec![("V".into(), V::s("t0x7 changed"))], cond: keq(1300) }],
+            into_inner: true,
+            arm_before_open: false,
+            read_back_armed: false,
+            extra: None,
+        },
+        // stream writers used the way std::io writers are: position queries and seeks between write and flush,
+        // one large write_all, several small writes
+        Script {
+            name: "stream-writer-position-then-flush",
+            setup: Some(base.clone()),
+            ops: vec![],
+            into_inner: false,
+            arm_before_open: false,
+            read_back_armed: false,
+            extra: Some(|p| {
+                use std::io::{Seek, SeekFrom, Write};
+                let mut w = p.write_stream("Pos.bin")?;
+                w.write_all(&[7u8; 3000])?;
+                let _ = w.stream_position()?;
+                w.flush()?;
+                drop(w);
+                let mut w = p.write_stream("Seek.bin")?;
+                w.write_all(&[8u8; 5000])?;
+                w.seek(SeekFrom::Start(10))?;
+                w.write_all(&[9u8; 4])?;
+                w.seek(SeekFrom::End(0))?;
+                w.flush()?;
+                drop(w);
+                let mut w = p.write_stream("Chunks.bin")?;
+                for i in 0..40u8 {
+                    w.write_all(&[i; 700])?;
+                }
+                w.flush()
+            }),
+        },
+        Script {
+            name: "stream-writer-10KB-single-write",
+            setup: Some(base.clone()),
+            ops: vec![],
+            into_inner: true,
+            arm_before_open: false,
+            read_back_armed: false,
+            extra: Some(|p| {
+                use std::io::Write;
+                let mut w = p.write_stream("TenK.bin")?;
+                w.write_all(&(0..10_000u32).map(|i| (i % 239) as u8).collect::<Vec<u8>>())?;
+                w.flush()
+            }),
+        },
+        Script { name: "package-create", setup: None, ops: vec![create("T"), ins("T", rows3)], into_inner: false, arm_before_open: false, read_back_armed: false, extra: None },
     ]
 }
 
@@ -205,7 +281,7 @@ pub fn run_script(sc: &Script, base: Option<&[u8]>, fault: Option<Fault>) -> Run
     };
     let mut out = RunOutcome { all_ok: true, first_err: None, panic: None, fired: 0, site: None, counts: Default::default(), bytes: Vec::new(), read_back: None };
     let mut pkg_opt = None;
-    let plan = fault.unwrap_or(Fault { kind: FaultKind::Write, at: u64::MAX, persistent: false });
+    let plan = fault.unwrap_or(Fault { kind: FaultKind::Write, at: u64::MAX, persistent: false, as_eof: false });
     if sc.arm_before_open {
         med.arm(plan);
     }
@@ -256,6 +332,21 @@ pub fn run_script(sc: &Script, base: Option<&[u8]>, fault: Option<Fault>) -> Run
                 }
             }
         }
+        if let Some(f) = sc.extra {
+            if out.all_ok {
+                match guarded(|| f(&mut pkg)) {
+                    Ok(Ok(())) => {}
+                    Ok(Err(e)) => {
+                        out.all_ok = false;
+                        out.first_err = Some(format!("direct calls: {}", e));
+                    }
+                    Err(p) => {
+                        out.all_ok = false;
+                        out.panic = Some(p);
+                    }
+                }
+            }
+        }
         if sc.read_back_armed && out.all_ok && out.panic.is_none() {
             match guarded(|| crate::observe::observe(&mut pkg)) {
                 Ok(Ok((o, _))) => out.read_back = Some(o),
@@ -303,7 +394,7 @@ fn check_run(rep: &mut Report, sc: &Script, base: Option<&[u8]>, expected: &Obs,
     let o = run_script(sc, base, Some(fault));
     rep.count("faulted_runs");
     let kind = format!("{:?}", fault.kind).to_lowercase();
-    let w = json!({"kind": "fault", "script": sc.name, "fault_kind": kind, "at": fault.at, "persistent": fault.persistent, "site": o.site});
+    let w = json!({"kind": "fault", "script": sc.name, "fault_kind": kind, "at": fault.at, "persistent": fault.persistent, "as_eof": fault.as_eof, "site": o.site});
     if let Some(p) = &o.panic {
         if p.in_harness() {
             rep.inconclusive.push(format!("harness panic: {} at {}", p.message, p.location));
@@ -401,7 +492,7 @@ pub fn run(ctx: &Ctx) -> Report {
                     Some("flush") => FaultKind::Flush,
                     _ => FaultKind::Write,
                 };
-                check_run(&mut rep, sc, base.as_deref(), &exp, Fault { kind, at: w["at"].as_u64().unwrap_or(0), persistent: w["persistent"].as_bool().unwrap_or(false) });
+                check_run(&mut rep, sc, base.as_deref(), &exp, Fault { kind, at: w["at"].as_u64().unwrap_or(0), persistent: w["persistent"].as_bool().unwrap_or(false), as_eof: w["as_eof"].as_bool().unwrap_or(false) });
             }
         } else {
             rep.inconclusive.push("unknown script in replay".into());
@@ -440,22 +531,26 @@ pub fn run(ctx: &Ctx) -> Report {
         let stride_rs = if p.sc.arm_before_open || p.sc.read_back_armed { 1 } else if quick { if is_create || big { 41 } else { 3 } } else if is_create { 3 } else { 1 };
         for k in (0..p.counts.writes).step_by(stride_w) {
             for persistent in [false, true] {
-                work.push((pi, Fault { kind: FaultKind::Write, at: k, persistent }));
+                work.push((pi, Fault { kind: FaultKind::Write, at: k, persistent, as_eof: false }));
             }
         }
         for k in (0..p.counts.reads).step_by(stride_rs) {
             for persistent in [false, true] {
-                work.push((pi, Fault { kind: FaultKind::Read, at: k, persistent }));
+                work.push((pi, Fault { kind: FaultKind::Read, at: k, persistent, as_eof: false }));
+                // a medium that lost its tail reports the failure as an unexpected end of file
+                if p.sc.arm_before_open || p.sc.read_back_armed {
+                    work.push((pi, Fault { kind: FaultKind::Read, at: k, persistent, as_eof: true }));
+                }
             }
         }
         for k in (0..p.counts.seeks).step_by(stride_rs) {
             for persistent in [false, true] {
-                work.push((pi, Fault { kind: FaultKind::Seek, at: k, persistent }));
+                work.push((pi, Fault { kind: FaultKind::Seek, at: k, persistent, as_eof: false }));
             }
         }
         for k in 0..p.counts.flushes {
             for persistent in [false, true] {
-                work.push((pi, Fault { kind: FaultKind::Flush, at: k, persistent }));
+                work.push((pi, Fault { kind: FaultKind::Flush, at: k, persistent, as_eof: false }));
             }
         }
         rep0.add(&format!("io_calls_{}_writes", p.sc.name), p.counts.writes);
